@@ -36,6 +36,7 @@ class Ctx:
         self.starts = {}        # path -> offset at which the field's own bytes start (after positioning)
         self.regex_nonkept = False   # a regex delimiter not kept in the value was consumed
         self.nonconsumed_delim = False
+        self.regex_ends = set()   # offsets at which a regex delimiter match ended
         self.steps = 0
 
     def touch(self, cur):
@@ -172,6 +173,7 @@ class Ok:
         self.starts = ctx.starts
         self.regex_nonkept = ctx.regex_nonkept
         self.nonconsumed_delim = ctx.nonconsumed_delim
+        self.regex_ends = ctx.regex_ends
         self.start = start
 
 
@@ -279,6 +281,7 @@ def parse_node(node, fname, vals, kinds, opts, ctx, cur, P0, path):
                 if mt:
                     found = s
                     dlen = mt.end() - s
+                    ctx.regex_ends.add(cur + mt.end())
                     break
             if found is None:
                 raise Fail('regex %r does not match in the search window' % node['pat'])
